@@ -126,7 +126,7 @@ def hash_cases(ctx):
             miss = D if name in ("get", "gat") else (D, CD)
             for fail in H_FAILS:
                 f = (TAGS[fail],)
-                for servers in ([("h1", 1)], servers2):
+                for servers in ([("h1", 1)], servers2, ["/tmp/mc-a.sock"], [("h1", 1), "/tmp/mc-b.sock"]):
                     # fail, fail again, (evicted / in window), then the clock moves on
                     ops = [(5, name, b"k", kw, miss)] * 4 + [(4,), (5, name, b"k", kw, miss), (5, name, b"k2", kw, miss)]
                     out.append((cfg, servers, 100, [100, 100, 101, 101, 102, 103, 110, 111, 200, 201, 202, 203], [f, f, f, f, f, f, f], ops))
